@@ -475,7 +475,15 @@ def rule_limiter_cleanup(program, ctx, prop=P, rid="C19.limiter"):
             if isinstance(tgt, ast.Name):
                 iters[tgt.id] = ast.unparse(base)
     for sub in ast.walk(fn):
-        if not (isinstance(sub, ast.Subscript) and isinstance(sub.ctx, ast.Load) and isinstance(sub.value, ast.Name) and sub.value.id in local_dicts):
+        if not (isinstance(sub, ast.Subscript) and isinstance(sub.ctx, ast.Load)):
+            continue
+        if isinstance(sub.value, (ast.Dict, ast.DictComp)):
+            n += 1
+            if not isinstance(sub.slice, ast.Constant):
+                ctx.bad(finding_at(prop, rid, sub, f"RateLimiter.cleanup looks `{ast.unparse(sub.slice)[:20]}` up in a table built on the spot (`{ast.unparse(sub.value)[:50]}`): a key that table lacks "
+                                   "raises KeyError out of start_client's finally block"))
+            continue
+        if not (isinstance(sub.value, ast.Name) and sub.value.id in local_dicts):
             continue
         n += 1
         k = sub.slice
@@ -579,6 +587,8 @@ DB = "nostr_relay/storage/db.py"
 BASE = "nostr_relay/storage/base.py"
 
 MUTANTS = [
+    M("c19-authenticate-returns-none", "nostr_relay/auth.py", "        if not isinstance(auth_event_json, dict):\n            raise AuthenticationError(\"Invalid\")", "        if not isinstance(auth_event_json, dict):\n            return None", "C19.token"),
+    M("c19-cleanup-per-command-table", "nostr_relay/rate_limiter.py", "                if (not ts) or (now - ts[0]) > max_interval:", "                if (not ts) or (now - ts[0]) > {c: max(r)[0] for c, r in self.rules[\"ip\"].items()}[cmd]:", "C19.limiter"),
     M("c19-cleanup-unguarded", "nostr_relay/web.py", "        if rate_limiter:\n            rate_limiter.cleanup()\n", "        rate_limiter.cleanup()\n", "C19.none"),
     M("c19-no-catch-all", WEB, "            except Exception:\n                log.exception(\"client loop\")\n                await ws_close(code=1013)\n                break\n", "", "C19.contain", canary=True),
     M("c19-catch-all-continue", WEB, "                log.exception(\"client loop\")\n                await ws_close(code=1013)\n                break", "                log.exception(\"client loop\")\n                continue", "C19.contain"),
